@@ -180,6 +180,37 @@ CHECKS = {
         note='Trusted: vlib/logs.py key->field table, defaults and name tables. Values in range (sec < 2^31).',
         technique='structured subset enumeration through the real decoder + reference-decoder oracle + repack '
                   '(inverse) oracle'),
+    'C12': dict(
+        category='exploration', design_ref='DESIGN.md section 4, C12',
+        text='Runtime monitoring: generated v2/v3 dumps (event ids from small class/subclass pools, thread ids incl. 0) are '
+             'listed by the real front-end unfiltered and under many tid/class/subclass configurations (lists and '
+             'tuples, API and click CLI); the filtered listing must equal, as a sequence, a list comprehension over the '
+             'unfiltered run with own shift literals; logs and events must stay in their own listings; log thread/'
+             'process filters are checked the same way.',
+        note='Trusted: vlib/wire.py builders, 6-line filter model in props/c12.py.',
+        technique='configuration sweep + exact-subsequence model oracle over the observed listings (API and CLI)'),
+    'C13': dict(
+        category='exploration', design_ref='DESIGN.md section 4, C13',
+        text='Runtime monitoring over request histories: dumps with scenario content are decoded unfiltered and under '
+             'tid/process/class/BSD-subclass configurations in histories of 2-4 repeated traces/formatted_traces/'
+             'callstacks requests on one parser object (also with another file in between); each filtered output must '
+             'equal the unfiltered output restricted to traces whose first event satisfies the user\'s filter, helper '
+             'classes shown only on request, request i == request 1, and the caller\'s filter attributes unchanged.',
+        note='Process filters run on static-map dumps; strings/lookups are emitted by the consuming thread; records of '
+             'non-requested classes that update shared tables carry the pid the map already declares.',
+        technique='request-history workload + commutation oracle (filter o decode == decode o filter) + state-residue '
+                  'snapshot comparison'),
+    'C19': dict(
+        category='exploration', design_ref='DESIGN.md section 4, C19',
+        text='(1) generated table texts (prefix/case/leading-zero variants, duplicates, comments, CRLF) through the real '
+             'from_trace_codes_text versus an own reference parse; (2) dumps listed and decoded by the real front-end '
+             'under the bundled table, a reduced table (removed ids must list as bare hex and never decode) and an '
+             'injective re-assignment of ids with the events re-mapped (trace texts and callstacks must equal those '
+             'under the bundled table).',
+        note='Names without whitespace, comments without line terminators, no empty lines; real-fault ids (hard-coded in '
+             'the page-fault decoder) are not re-assigned.',
+        technique='generated-table differential against a reference parser + table-substitution metamorphism on the real '
+                  'front-end'),
 }
 
 PENDING_REASON = 'check not yet built in this session (design in DESIGN.md section 4); not claimed until it exists'
